@@ -186,11 +186,30 @@ func (p *Program) ruleTypeTables(c *Check, scanTargets map[string]string) {
 	}
 	info := pkg.TypesInfo
 	dispatch := map[string]*types.Func{}
-	for _, st := range fd.Body.List {
-		sw, ok := st.(*ast.SwitchStmt)
-		if !ok {
-			continue
-		}
+	// the dispatch switch lives in parseJSON or in a helper it hands the type string to
+	var switches []*ast.SwitchStmt
+	seenFn := map[*types.Func]bool{pj: true}
+	var collect func(body *ast.BlockStmt, depth int)
+	collect = func(body *ast.BlockStmt, depth int) {
+		ast.Inspect(body, func(n ast.Node) bool {
+			switch x := n.(type) {
+			case *ast.SwitchStmt:
+				switches = append(switches, x)
+			case *ast.CallExpr:
+				if id, ok := x.Fun.(*ast.Ident); ok {
+					if f, ok := info.Uses[id].(*types.Func); ok && f.Pkg() == pj.Pkg() && !seenFn[f] && depth < 1 {
+						seenFn[f] = true
+						if hd := p.Decl(f); hd != nil && hd.Body != nil {
+							collect(hd.Body, depth+1)
+						}
+					}
+				}
+			}
+			return true
+		})
+	}
+	collect(fd.Body, 0)
+	for _, sw := range switches {
 		for _, cl := range sw.Body.List {
 			cc := cl.(*ast.CaseClause)
 			for _, e := range cc.List {
@@ -202,7 +221,10 @@ func (p *Program) ruleTypeTables(c *Check, scanTargets map[string]string) {
 					if call, ok := n.(*ast.CallExpr); ok {
 						if id, ok := call.Fun.(*ast.Ident); ok {
 							if f, ok := info.Uses[id].(*types.Func); ok {
-								dispatch[constant.StringVal(tv.Value)] = f
+								// a typed parser: returns (Object, error)
+								if sig, ok := f.Type().(*types.Signature); ok && sig.Results().Len() == 2 && sig.Results().At(1).Type().String() == "error" {
+									dispatch[constant.StringVal(tv.Value)] = f
+								}
 							}
 						}
 					}
